@@ -328,7 +328,7 @@ fn run_c16(args: &Args) -> i32 {
         "syscall_faults_fired_by_call": st["syscall_faults_fired"],
         "io_events_simulated": st["io_events"],
         "panic_sites_hit": st["panic_sites"],
-        "exhaustive_subspaces": if thorough { json!(["torn (every prefix length)", "lost line / head run / tail run / interior runs of 2-4 lines", "duplicated line / run of 2-3 lines", "zero-filled tail", "every single bit flip (grammars <= 5 KB)", "every 1-3 byte run written 12 times (grammars <= 5 KB)", "single failing syscall: every I/O event x every errno legal for its call class"]) } else { json!(["torn (every prefix length)", "lost line / head run / tail run / interior runs of 2-4 lines", "duplicated line / run of 2-3 lines", "zero-filled tail", "single failing syscall on the first grammars of the corpus"]) },
+        "exhaustive_subspaces": if thorough { json!(["torn (every prefix length)", "lost line / head run / tail run / interior runs of 2-4 lines", "duplicated line / run of 2-3 lines", "zero-filled tail", "rule-shape product: every ordered choice of 2-3 alternatives out of 14 collection-rule shapes x @vec x element kind x LR/GLR (fault-free)", "every single bit flip (grammars <= 5 KB)", "every 1-3 byte run written 12 times (grammars <= 5 KB)", "single failing syscall: every I/O event x every errno legal for its call class"]) } else { json!(["torn (every prefix length)", "lost line / head run / tail run / interior runs of 2-4 lines", "duplicated line / run of 2-3 lines", "zero-filled tail", "rule-shape product: every ordered choice of 2-3 alternatives out of 14 collection-rule shapes x @vec x element kind x LR/GLR (fault-free)", "single failing syscall on the first grammars of the corpus"]) },
         "exhaustive": false,
         "runs_per_hour": if wall > 0.0 { (cases as f64 / wall * 3600.0) as u64 } else { 0 },
         "components": {
